@@ -40,13 +40,14 @@ UNITS = {
 
 UNITS['U02'] = dict(
     kind='verus', tpl='contracts/U02_column_buffer.vx', fallback='U02w',
-    title='mem_store/column_buffer.rs: ColumnBuffer::{null,len,push_val,push_ints,push_floats,push_strings,push_nulls,push_present,init_present}, IntColBuffer::{default,push}, FloatColBuffer::push, MixedColBuffer::push; ingest/buffer.rs: per-column bodies of Buffer::push_typed_cols and Buffer::extend_to_largest (slices)',
+    title='mem_store/column_buffer.rs: ColumnBuffer::{null,len,push_val,push_ints,push_floats,push_strings,push_nulls,push_present,init_present}, IntColBuffer::{default,push}, FloatColBuffer::push, MixedColBuffer::push; ingest/buffer.rs: per-column bodies of Buffer::push_typed_cols and Buffer::extend_to_largest (slices); IntColBuffer::finalize delta decision and MixedColBuffer::finalize row loop (slices); scheduler/inner_locustdb.rs compaction: append of a decoded column to the rebuilt column (slice)',
     assumptions=['R8: iterator parameters (impl IntoIterator) monomorphised to slices; all call sites pass arrays, Vecs or slice iterators',
                  'R9 shims (external_body, assumed length specs): StringColBuffer (opaque; its string packing is U03), '
                  'vx_mixed_from_strings / vx_mixed_from_data (iterator-adapter conversions into MixedColBuffer), vx_i64_to_f64, vx_to_string',
                  'payload of float / string / mixed rows is opaque here: only row count, NULL-ness and the integer payload are views',
                  'A-wire-wf: sparse (index, value) lists have strictly increasing indices below the row count (established by the row API, not by the wire decoder)',
-                 'A-hashmap: the HashMap iteration around the per-column slices of ingest/buffer.rs is not verified (each column is handled independently)'],
+                 'A-hashmap: the HashMap iteration around the per-column slices of ingest/buffer.rs is not verified (each column is handled independently)',
+                 'R10: in the compaction slice `decoded: BoxedData` is a typed view (external_body accessors get_type / len / cast_ref_* with uninterpreted views)'],
     not_covered=['ColumnBuffer::finalize and the *ColBuffer::finalize functions (Arc<Column> construction; integer part in U04)',
                  'is_lowercase_hex / is_uppercase_hex (char iterators)'])
 
@@ -93,7 +94,7 @@ UNITS['U09m'] = dict(
 
 UNITS['U19'] = dict(
     kind='verus', tpl='contracts/U19_select.vx', timeout_s=600,
-    title='row-selection kernels: Filter, NullableFilter, FilterNullable, NullableFilterNullable, IsNull, IsNotNull, Compact, CompactWithNullable, CompactNullable, CompactNullableNullable, NonzeroCompact, NonzeroCompactNullable, Exists (execute bodies)',
+    title='row-selection kernels: NullVecLike non-null count (slice), Filter, NullableFilter, FilterNullable, NullableFilterNullable, IsNull, IsNotNull, Compact, CompactWithNullable, CompactNullable, CompactNullableNullable, NonzeroCompact, NonzeroCompactNullable, Exists (execute bodies)',
     assumptions=['R6: scratchpad bindings lifted to parameters (A-planner: distinct BufferRefs do not alias)',
                  'R5: `x > T::zero()` on the planner\'s integer types abstracted to trait Pos { is_pos }, cast_usize to trait GroupIndex',
                  'R4/R9 verified replacements: vx_resize, vx_zero_bytes (for p in iter_mut { *p = 0 }), vx_div_ceil8',
@@ -137,6 +138,7 @@ UNITS['U13k'] = dict(
     harnesses=[dict(name='proofs::output_window_contract', clause='count == min(limit, len.saturating_sub(offset)); window in bounds; no panic', fn='QueryTask::convert_to_output_format[slice]'),
                dict(name='proofs::combined_limit_contract', clause='limit + offset without overflow (saturating)', fn='QueryTask::combined_limit'),
                dict(name='proofs::partition_limit_contract', clause='limit + offset without overflow (saturating)', fn='NormalFormQuery::run[slice]'),
+               dict(name='proofs::null_column_window', clause='Data for usize::slice_box(offset, offset + count) == count', fn='Data for usize::slice_box[slice]'),
                dict(name='proofs::vx_canary', expect_fail=True)],
     assumptions=['slice: only the statements computing limit/offset/count are extracted; the row/column copying that follows uses them as offset..offset+count'],
     not_covered=['batch_merging::combine select-branch count', 'row assembly in convert_to_output_format'])
@@ -226,12 +228,12 @@ UNITS['U16k'] = dict(
     not_covered=['decode of arbitrary / malformed byte streams', 'single.rs (f32 variant)', 'verbose_encode'])
 
 UNITS['U17k'] = dict(
-    kind='kani', crate='kani/U17', needs_lock=True, timeout_s=1200, mem_gb=12, jobs=1,
-    title='BOUNDED (3 rows): real crate locustdb-serialization, event_buffer::ColumnBuffer::push - dense/sparse/int/float representations denote the rows that were pushed',
-    harnesses=[dict(name='proofs::push_rows', bounded='3 rows, values NULL / any i64 / any f64, unwind 6', unwind=6, clause='den(representation, row) == value pushed at that row (ints promoted to float when a float arrives), NULL elsewhere', fn='event_buffer::ColumnBuffer::push'),
-               dict(name='proofs::vx_canary', expect_fail=True)],
+    kind='kani', crate='kani/U17', needs_lock=True, timeout_s=900, mem_gb=10, jobs=5,
+    title='BOUNDED (five fixed row shapes, all values symbolic): real crate locustdb-serialization, event_buffer::ColumnBuffer::push - every representation transition keeps each value at its row',
+    harnesses=[dict(name='proofs::%s' % n, bounded='fixed shape %s, unwind 6' % n, unwind=6, clause='den(representation, row) == value pushed at that row (ints promoted in place when a float arrives), NULL elsewhere', fn='event_buffer::ColumnBuffer::push') for n in ['dense_ints_then_gap', 'dense_floats_then_gap', 'dense_ints_then_float', 'sparse_ints_then_float', 'late_start_float_then_int']]
+    + [dict(name='proofs::vx_canary', expect_fail=True)],
     assumptions=['whole crate compiled unmodified (capnp dependency included but not exercised)'],
-    not_covered=['string / mixed values', 'EventBuffer::serialize / deserialize (capnp)', 'TableBuffer::push_row_and_timestamp (HashMap, system time)'])
+    not_covered=['string / mixed values', 'row shapes other than the five listed', 'EventBuffer::serialize / deserialize (capnp)', 'TableBuffer::push_row_and_timestamp (HashMap, system time)'])
 
 UNITS['U18k'] = dict(
     kind='kani', crate='kani/U18',
@@ -317,7 +319,7 @@ PROPS = {
                 level_note='the Cap\'n Proto payload encode/decode (segments, catalogue) is not covered: the "decodes to exactly the logical content" half of C14 is decided for the envelope only',
                 technique='contract-based deductive verification (Verus; Kani complete for the byte-conversion assumption) of extracted functions',
                 assumptions=[], not_covered=['capnp encode/decode of WAL segments, partition segments and the catalogue', 'FileBlobWriter']),
-    'C12': dict(level='other', units=['U13k', 'U21k'],
+    'C12': dict(level='other', units=['U13k', 'U21k', 'U19'],
                 level_text='complete Kani proofs of the LIMIT/OFFSET row-window arithmetic (never more rows than LIMIT, no panic for any limit/offset/length); bounded Kani check that LIMIT/OFFSET literals give an error value instead of a panic',
                 level_note='narrow: sqlparser, convert_to_native_expr, result assembly (BatchResult::validate) and channel delivery are not covered',
                 technique='contract-based deductive verification (Kani complete + bounded harnesses) of extracted slices',
